@@ -72,6 +72,30 @@ impl Ctx {
                     if k == "alloc" {
                         let e = self.alloc_by_api.entry(format!("death via {}", c.apis.first().cloned().unwrap_or_default())).or_insert((0, c.text.clone()));
                         e.0 += 1;
+                        // same rule as for `capacity overflow` panics: excluded only where the result must hold
+                        // that many elements (tagged), for collectors on endless iterators (the collection
+                        // itself is endless) and for seeded random compositions
+                        let excluded = c.apis.iter().any(|a| a == ALLOC_EXCLUDED || a == UNBOUNDED_GROWTH || a == INFINITE_COLLECT) || c.group == "program-random";
+                        if !excluded {
+                            let site = Site { file: "<abort>".into(), function: "allocation-failure".into() };
+                            let key = format!("<abort>::allocation-failure via {:?}", c.apis.first());
+                            *self.sites_seen.entry(key.clone()).or_insert(0) += 1;
+                            match attribute(&self.known, &site, "memory allocation failed", &c.apis) {
+                                Some(id) => {
+                                    let e = self.known_hits.entry(id).or_insert((0, c.text.clone()));
+                                    e.0 += 1;
+                                }
+                                None => {
+                                    let n = self.new_sites.entry(key).or_insert(0);
+                                    *n += 1;
+                                    if *n == 1 {
+                                        self.rep.violation("D", "C06:abort-allocation", json!({"input": c.text, "input_hex": kvh::hex(c.text.as_bytes()), "kind": c.kind.to_string(), "apis": c.apis,
+                                            "detail": d.chars().take(800).collect::<String>(),
+                                            "note": "the worker process was aborted by a failed allocation although the result of the call does not have to hold that many elements (a capacity reserved for a size that is never reached)"}));
+                                    }
+                                }
+                            }
+                        }
                     }
                     let flagged = c.apis.iter().any(|a| a == CYCLIC_DEEP);
                     if k == "stack" && flagged {
@@ -126,9 +150,14 @@ impl Ctx {
     }
 
     fn on_panic(&mut self, c: &Case, p: &PanicRec) {
-        let reserve_case = c.apis.iter().any(|a| a == INFINITE_COLLECT);
-        if is_alloc_panic(&p.msg) && !reserve_case {
-            // gigantic allocation: outside the property
+        // The allocation exclusion, stated per case: a `capacity overflow` / allocation-failure panic is
+        // outside the property only when the RESULT of the call must hold that many elements — the
+        // generators tag exactly those cases (`excluded:allocation-request`); seeded random compositions
+        // cannot be classified and keep the blanket exclusion. Everywhere else it is a reservation for a
+        // size that is never reached: a panic of the runtime.
+        let excluded_alloc = c.apis.iter().any(|a| a == ALLOC_EXCLUDED || a == UNBOUNDED_GROWTH) || c.group == "program-random";
+        if is_alloc_panic(&p.msg) && excluded_alloc {
+            // gigantic allocation the script asked for: outside the property
             self.alloc_panics += 1;
             let e = self.alloc_by_api.entry(format!("panic via {}", c.apis.first().cloned().unwrap_or_default())).or_insert((0, c.text.clone()));
             e.0 += 1;
@@ -459,7 +488,7 @@ fn replay_known(cx: &mut Ctx) {
         hang_probe_cases.push(Case { kind: 'R', text: src.to_string(), group: "excluded-recursion-probe", apis: vec!["excluded:script-recursion".into()] });
     }
     // the script's own gigantic allocation request (stated exclusion), listed explicitly
-    for src in ["(1..10).windows(9223372036854775807).next()\n", "(1..10).chunks(9223372036854775807).next()\n", "'ab'.repeat(1e30)\n", "'ab'.repeat(9223372036854775807)\n", "[].resize(1e30, 0)\n", "x = 1\n'{x:4000000000}'\n"] {
+    for src in ["'ab'.repeat(1e30)\n", "'ab'.repeat(9223372036854775807)\n", "[].resize(1e30, 0)\n", "x = 1\n'{x:4000000000}'\n"] {
         hang_probe_cases.push(Case { kind: 'R', text: src.to_string(), group: "excluded-allocation-probe", apis: vec!["excluded:allocation-request".into()] });
     }
     let outs = cx.pool.run_opts(&hang_probe_cases, Duration::from_millis(4000), false);
